@@ -68,6 +68,8 @@ impl ConsumeUnverifiedBlocks {
 
     pub(crate) fn start(mut self) {
         loop {
+            #[cfg(feature = "verif-hooks")]
+            crate::verif::point("verify:idle", &Default::default());
             let trace_begin_loop = minstant::Instant::now();
             select! {
                 recv(self.unverified_block_rx) -> msg => match msg {
@@ -122,10 +124,14 @@ impl ConsumeUnverifiedBlockProcessor {
         } = unverified_block;
         let block_hash = block.hash();
         // process this unverified block
+        #[cfg(feature = "verif-hooks")]
+        crate::verif::point("verify:recv", &block_hash);
         let verify_result = self.verify_block(&block, &parent_header, switch);
         match &verify_result {
             Ok(_) => {
                 let log_now = std::time::Instant::now();
+                #[cfg(feature = "verif-hooks")]
+                crate::verif::point("verify:remove-status", &block_hash);
                 self.shared.remove_block_status(&block_hash);
                 let log_elapsed_remove_block_status = log_now.elapsed();
                 self.shared.remove_header_view(&block_hash);
@@ -139,6 +145,8 @@ impl ConsumeUnverifiedBlockProcessor {
             Err(err) => {
                 error!("verify block {} failed: {}", block_hash, err);
 
+                #[cfg(feature = "verif-hooks")]
+                crate::verif::point("verify:failed-reset-unverified-tip", &block_hash);
                 let tip = self
                     .shared
                     .store()
@@ -156,8 +164,12 @@ impl ConsumeUnverifiedBlockProcessor {
                     tip_ext.total_difficulty,
                 ));
 
+                #[cfg(feature = "verif-hooks")]
+                crate::verif::point("verify:delete-block", &block_hash);
                 self.delete_unverified_block(&block);
 
+                #[cfg(feature = "verif-hooks")]
+                crate::verif::point("verify:mark-invalid", &block_hash);
                 if !is_internal_db_error(err) {
                     self.shared
                         .insert_block_status(block_hash.clone(), BlockStatus::BLOCK_INVALID);
@@ -176,8 +188,12 @@ impl ConsumeUnverifiedBlockProcessor {
             }
         }
 
+        #[cfg(feature = "verif-hooks")]
+        crate::verif::point("verify:pending-remove", &block_hash);
         self.is_pending_verify.remove(&block_hash);
 
+        #[cfg(feature = "verif-hooks")]
+        crate::verif::point("verify:callback", &block_hash);
         if let Some(callback) = verify_callback {
             callback(verify_result);
         }
@@ -227,6 +243,8 @@ impl ConsumeUnverifiedBlockProcessor {
         let parent_hash = block.parent_hash();
 
         {
+            #[cfg(feature = "verif-hooks")]
+            crate::verif::point("verify:read-parent-status", &block_hash);
             let parent_status = self.shared.get_block_status(&parent_hash);
             if parent_status.eq(&BlockStatus::BLOCK_INVALID) {
                 return Err(InternalErrorKind::Other
@@ -238,6 +256,8 @@ impl ConsumeUnverifiedBlockProcessor {
             }
         }
 
+        #[cfg(feature = "verif-hooks")]
+        crate::verif::point("verify:read-exts", &block_hash);
         let parent_ext = self.shared.store().get_block_ext(&parent_hash).ok_or(
             InternalErrorKind::Other.other(format!(
                 "block: {}'s parent: {}'s block ext not found",
@@ -283,6 +303,8 @@ impl ConsumeUnverifiedBlockProcessor {
             txs_sizes: None,
         };
 
+        #[cfg(feature = "verif-hooks")]
+        crate::verif::point("verify:load-snapshot", &block_hash);
         let shared_snapshot = Arc::clone(&self.shared.snapshot());
         let origin_proposals = shared_snapshot.proposals();
         let current_tip_header = shared_snapshot.tip_header();
@@ -355,6 +377,8 @@ impl ConsumeUnverifiedBlockProcessor {
         } else {
             db_txn.insert_block_ext(&block.header().hash(), &ext)?;
         }
+        #[cfg(feature = "verif-hooks")]
+        crate::verif::point("verify:commit", &block_hash);
         db_txn.commit()?;
 
         // verif hook: the database holds the new chain state, the published snapshot is still the old one
@@ -385,6 +409,8 @@ impl ConsumeUnverifiedBlockProcessor {
                 self.shared
                     .new_snapshot(tip_header, cannon_total_difficulty, epoch, new_proposals);
 
+            #[cfg(feature = "verif-hooks")]
+            crate::verif::point("verify:publish", &block_hash);
             self.shared.store_snapshot(Arc::clone(&new_snapshot));
 
             let tx_pool_controller = self.shared.tx_pool_controller();
@@ -412,6 +438,8 @@ impl ConsumeUnverifiedBlockProcessor {
                 metrics.ckb_chain_tip.set(block.header().number() as i64);
             }
         } else {
+            #[cfg(feature = "verif-hooks")]
+            crate::verif::point("verify:refresh-snapshot", &block_hash);
             self.shared.refresh_snapshot();
             info!(
                 "[verify block] uncle: {}, hash: {:#x}, epoch: {:#}, total_diff: {:#x}, txs: {}, proposals: {}",
